@@ -18,7 +18,19 @@ _installed = [False]
 _real_open = builtins.open
 
 
+_FDS = set()     # descriptors of the traced files that are open
+
+
 class TracedFileIO(io.FileIO):
+    def __init__(self, *a, **k):
+        super().__init__(*a, **k)
+        _FDS.add(self.fileno())
+
+    def close(self):
+        if not self.closed:
+            _FDS.discard(self.fileno())
+        super().close()
+
     def write(self, b):
         off = self.tell()
         data = bytes(b)
@@ -33,6 +45,47 @@ class TracedFileIO(io.FileIO):
         r = super().truncate(size)
         LOG.append(('truncate', int(size)))
         _maybe_kill()
+        return r
+
+
+class _OsProxy:
+    """Stands in for the `os` module inside elfi.store: descriptor-level writes to a traced file (os.pwrite, os.write,
+    os.ftruncate, os.truncate on a descriptor) bypass the file object and are raw operations of their own."""
+
+    def __getattr__(self, name):
+        return getattr(os, name)
+
+    @staticmethod
+    def pwrite(fd, data, offset):
+        n = os.pwrite(fd, data, offset)
+        if fd in _FDS:
+            LOG.append(('write', int(offset), bytes(data)[:n]))
+            _maybe_kill()
+        return n
+
+    @staticmethod
+    def write(fd, data):
+        off = os.lseek(fd, 0, os.SEEK_CUR) if fd in _FDS else 0
+        n = os.write(fd, data)
+        if fd in _FDS:
+            LOG.append(('write', int(off), bytes(data)[:n]))
+            _maybe_kill()
+        return n
+
+    @staticmethod
+    def ftruncate(fd, length):
+        r = os.ftruncate(fd, length)
+        if fd in _FDS:
+            LOG.append(('truncate', int(length)))
+            _maybe_kill()
+        return r
+
+    @staticmethod
+    def truncate(path, length):
+        r = os.truncate(path, length)
+        if isinstance(path, int) and path in _FDS:
+            LOG.append(('truncate', int(length)))
+            _maybe_kill()
         return r
 
 
@@ -65,6 +118,8 @@ def install():
     if _installed[0]:
         return
     st.open = traced_open
+    if getattr(st, 'os', None) is os:
+        st.os = _OsProxy()
     orig = st.NpyArray.__setitem__
 
     def traced_setitem(self, sl, value):
